@@ -70,6 +70,7 @@ type c08Case struct {
 	T     scalarSpec `json:"t"`
 	Edge  int        `json:"edge"` // >= 0: use the GLV edge scalar with this index instead of S
 	Alias string     `json:"alias"`
+	Noise uint64     `json:"noise,omitempty"`
 }
 
 var c08Ops = []string{"add", "sub", "double", "neg", "mul", "mul", "addmixed", "set", "setidentity", "laws", "laws"}
@@ -80,6 +81,7 @@ func genC08(t *rapid.T) c08Case {
 		Op: rapid.SampledFrom(c08Ops).Draw(t, "op"), P: genElem(t, "p"), Q: genElem(t, "q"),
 		S: genScalar(t, "s", []int{2, 8, 16}), T: genScalar(t, "t", []int{2, 8, 16}), Edge: -1,
 		Alias: rapid.SampledFrom(c08Alias).Draw(t, "alias"),
+		Noise: noiseSeedFrom(rapid.Uint64().Draw(t, "noise")) & ^uint64(6), // a quarter of the cases, light noise only
 	}
 	if rapid.IntRange(0, 2).Draw(t, "use_edge") == 0 {
 		c.Edge = rapid.IntRange(0, len(glvEdgeScalars())-1).Draw(t, "edge")
@@ -98,6 +100,9 @@ func evalC08(c c08Case, rec *hx.Rec) error {
 	rec.Eval(1)
 	rec.Sample(c)
 	rec.Label("op="+c.Op, "alias="+c.Alias, "p="+c.P.Src, fmt.Sprintf("rep=%d", c.P.Rep))
+	if c.Noise%8 == 1 {
+		runNoise(c.Noise, 2, false)
+	}
 	rp, rq := c.P.point(), c.Q.point()
 	s, t := c.scalar(), c.T.value()
 	p, q := hx.ToImpl(rp), hx.ToImpl(rq)
